@@ -188,6 +188,7 @@ func runReplyCtors(c *Case) {
 // ---------------------------------------------------------------- stress through the real outbox
 
 type stressClient struct {
+	name  []byte // the user name the server gave the session
 	idx   int
 	wc    *WireClient
 	id    int
@@ -233,6 +234,7 @@ func runOutboxStress(c *Case) {
 		for _, cc := range ts.Srv.ClientMgr.List() {
 			if cc.Connection == wc.Conn {
 				sc.id = int(binary.BigEndian.Uint16(cc.ID[:]))
+				sc.name = append([]byte{}, cc.UserName...)
 			}
 		}
 		cls = append(cls, sc)
@@ -289,10 +291,16 @@ func runOutboxStress(c *Case) {
 				privTo[to][text]++
 				t = mkTran(hotline.TranSendInstantMsg, id, fld(hotline.FieldData, []byte(text)), fld(hotline.FieldUserID, be16(cls[to].id)), fld(hotline.FieldOptions, []byte{0, 1}))
 			default:
-				l := r.Pick(0, 5, 40, 300, 3000, 8000)
+				// lengths around and beyond the 8192-byte chat limit included (the delivered line is cut, its field must stay well formed)
+				l := r.Pick(0, 5, 40, 300, 3000, 8000, 8150, 8176, 8200, 9000)
 				text := fmt.Sprintf("line-%d-%d-", i, j) + strings.Repeat("m", l)
-				chatLines = append(chatLines, line{i, text})
-				t = mkTran(hotline.TranChatSend, id, fld(hotline.FieldData, []byte(text)))
+				emote := r.Chance(25)
+				fields := []hotline.Field{fld(hotline.FieldData, []byte(text))}
+				if emote {
+					fields = append(fields, fld(hotline.FieldChatOptions, []byte{0, 1}))
+				}
+				chatLines = append(chatLines, line{i, string(chatTextRef(sc.name, emote, []byte(text)))})
+				t = mkTran(hotline.TranChatSend, id, fields...)
 			}
 			sc.sent[id] = tranType(&t)
 			sc.order = append(sc.order, id)
@@ -402,9 +410,7 @@ func runOutboxStress(c *Case) {
 			switch tranType(t) {
 			case 106:
 				d, _ := fieldOf(t, 101)
-				if i := bytes.Index(d, []byte("line-")); i >= 0 {
-					seenChat[string(d[i:])]++
-				}
+				seenChat[string(d)]++
 			case 104:
 				d, _ := fieldOf(t, 101)
 				seenPriv[string(d)]++
@@ -430,10 +436,10 @@ func runOutboxStress(c *Case) {
 			}
 		}
 		for _, l := range chatLines {
-			// the line as delivered: "\r%13.13s:  " + text; we matched from "line-"
+			// l.text is the line as it must be delivered: formatted with the sender's name and cut to 8192 bytes
 			if seenChat[l.text] != 1 {
 				c.Note("line", clip(l.text))
-				c.Violation("broadcast-delivery-count", fmt.Sprintf("client %d received the public chat line %q %d times, expected exactly once", sc.idx, clip(l.text[:min(len(l.text), 20)]), seenChat[l.text]))
+				c.Violation("broadcast-delivery-count", fmt.Sprintf("client %d received the public chat line %q (%d bytes as delivered) %d times, expected exactly once", sc.idx, clip(l.text[:min(len(l.text), 40)]), len(l.text), seenChat[l.text]))
 				return
 			}
 		}
@@ -454,6 +460,81 @@ func runOutboxStress(c *Case) {
 	c.Dist(fmt.Sprintf("stress/clients=%d", n))
 	c.Dist(fmt.Sprintf("stress/board>32KiB:%v", len(board) > 32768))
 	c.Sample(map[string]any{"family": "outbox-stress", "clients": n, "requests_per_client": k, "board_bytes": len(board), "files": nfiles, "chat_lines": len(chatLines), "bytes_received": total})
+}
+
+// ---------------------------------------------------------------- chat lines at the 8192-byte limit, field by field
+
+// runLongChatLines: plain and emote lines of 8150..9100 bytes to public chat and to a private chat, handler level:
+// every field of every returned transaction must carry a size prefix equal to its data length, and every transaction,
+// serialised on its own, must re-frame (Go reference, Lean decoder) to itself.
+func runLongChatLines(c *Case) {
+	r := c.R
+	ts, err := newTS(TSOpt{Direct: true})
+	if err != nil {
+		panic(err)
+	}
+	defer ts.Close()
+	var ccs []*hotline.ClientConn
+	for i := 0; i < 3; i++ {
+		cc, _ := ts.DirectClient("guest", textBytes(r, r.Pick(0, 1, 5, 13, 14, 31)), fmt.Sprintf("10.8.0.%d:1", i+1))
+		ccs = append(ccs, cc)
+	}
+	var chat []byte
+	res, _, _ := callSync(ts, ccs[0], mkTran(hotline.TranInviteNewChat, 900, fld(hotline.FieldUserID, ccs[1].ID[:])))
+	for i := range res {
+		if res[i].IsReply == 1 {
+			chat, _ = fieldOf(&res[i], 114)
+		}
+	}
+	if len(chat) == 4 {
+		callSync(ts, ccs[1], mkTran(hotline.TranJoinChat, 901, fld(hotline.FieldChatID, chat)))
+	}
+	for k := 0; k < 4 && !c.failed; k++ {
+		sender := ccs[r.Intn(len(ccs))]
+		msg := textBytes(r, r.Pick(8150, 8170, 8175, 8176, 8177, 8185, 8192, 8193, 8300, 9000, 9100, 40))
+		fields := []hotline.Field{fld(hotline.FieldData, msg)}
+		emote := r.Chance(40)
+		if emote {
+			fields = append(fields, fld(hotline.FieldChatOptions, []byte{0, 1}))
+		}
+		private := len(chat) == 4 && r.Chance(50)
+		if private {
+			fields = append(fields, fld(hotline.FieldChatID, chat))
+		}
+		outs, _, p := callSync(ts, sender, mkTran(hotline.TranChatSend, uint32(1000+k), fields...))
+		if p != nil {
+			c.Violation("chat-handler-panic", "HandleChatSend panicked on a long line")
+			return
+		}
+		c.Note("message_bytes", len(msg))
+		c.Note("emote", emote)
+		c.Note("private", private)
+		want := chatTextRef(sender.UserName, emote, msg)
+		for i := range outs {
+			t := outs[i]
+			for _, f := range t.Fields {
+				if int(binary.BigEndian.Uint16(f.FieldSize[:])) != len(f.Data) {
+					c.Note("field", binary.BigEndian.Uint16(f.Type[:]))
+					c.Violation("field-prefix", fmt.Sprintf("a chat line of %d bytes (emote=%v, private=%v) is delivered in a field whose size prefix says %d while %d data bytes follow", len(msg), emote, private, binary.BigEndian.Uint16(f.FieldSize[:]), len(f.Data)))
+					return
+				}
+			}
+			if d, _ := fieldOf(&t, 101); !bytes.Equal(d, want) {
+				c.Violation("chat-text-format", fmt.Sprintf("delivered chat text has %d bytes, the formatted line cut to 8192 bytes has %d", len(d), len(want)))
+				return
+			}
+			enc := encTran(t)
+			got, rest, ferr := splitTransactions(enc)
+			if ferr != nil || len(rest) != 0 || len(got) != 1 || tranStrGo(&got[0]) != tranStrGo(&t) {
+				c.Note("reframe_error", fmt.Sprint(ferr))
+				c.Violation("interleaved-transactions", "a chat transaction serialised on its own does not re-frame to itself (a length prefix disagrees with its content)")
+				return
+			}
+			c.Corr("chat-transaction-decodes", c.AskS("trandec", hx(enc)), "ok "+tranStrGo(&t), true)
+		}
+		c.Nontrivial(fmt.Sprintf("%d/%v/%v/%x", len(msg), emote, private, fnv64a(msg)))
+		c.Dist(fmt.Sprintf("long-chat/over-limit:%v", len(want) == 8192))
+	}
 }
 
 // ---------------------------------------------------------------- replies after the id space wrapped
@@ -628,7 +709,7 @@ func runWrapReplies(c *Case) {
 
 func init() {
 	props["C14"] = func(x *Ctx) {
-		x.rule = "forced-merge: transaction A (encoded size small, 32 KiB ± 3, 32-64 KiB, one 65 535-byte field, 200-800 fields, several fields totalling up to ~190 KB) written by the real sendTransaction; a second transaction B for the same client is sent the moment A's first Write call returns; reply-ctors: random requests through NewReply / NewErrReply / NewField; outbox-stress: 2-6 real connections, 8-37 concurrent requests each (keep-alive, user list, message board of 0..60 000 bytes, file list of 0..700 entries, public chat lines of 0..8000 bytes, private messages) through the real processOutbox. wrap-replies: 1-3 long-lived connections, the id counter set to 65 535 / k·65 536-1 / 2^32-1, 2-4 further logins, then keep-alive / user list / message board / file list requests from everybody and one public chat line, judged by a per-connection reply ledger; non-trivial = every forced merge / stress / wrap run (distinct sizes and contents); distinct = distinct (sizes, content hash) / run parameters"
+		x.rule = "forced-merge: transaction A (encoded size small, 32 KiB ± 3, 32-64 KiB, one 65 535-byte field, 200-800 fields, several fields totalling up to ~190 KB) written by the real sendTransaction; a second transaction B for the same client is sent the moment A's first Write call returns; reply-ctors: random requests through NewReply / NewErrReply / NewField; outbox-stress: 2-6 real connections, 8-37 concurrent requests each (keep-alive, user list, message board of 0..60 000 bytes, file list of 0..700 entries, public chat lines of 0..9000 bytes — plain and emote, cut to 8192 by the server —, private messages); long-chat-lines: plain / emote lines of 8150..9100 bytes to public chat and a private chat at handler level, size prefix of every field vs its data, each transaction re-framed on its own through the real processOutbox. wrap-replies: 1-3 long-lived connections, the id counter set to 65 535 / k·65 536-1 / 2^32-1, 2-4 further logins, then keep-alive / user list / message board / file list requests from everybody and one public chat line, judged by a per-connection reply ledger; non-trivial = every forced merge / stress / wrap run (distinct sizes and contents); distinct = distinct (sizes, content hash) / run parameters"
 		x.assume = []string{
 			"a single Write call on a connection is atomic (net.Conn: Go's fd write lock); the in-memory connection used here has that behaviour and records every call",
 			"goroutine schedules are sampled (stress) or forced at the one point that matters (between two Write calls of one transaction); fairness of the Go scheduler, memory pressure and kernel-level partial writes are outside the model",
@@ -638,5 +719,6 @@ func init() {
 		x.Add(&Family{Name: "reply-ctors", Quick: 3000, Thor: 100000, Run: runReplyCtors})
 		x.Add(&Family{Name: "outbox-stress", Quick: 80, Thor: 1500, Run: runOutboxStress})
 		x.Add(&Family{Name: "wrap-replies", Quick: 40, Thor: 800, Run: runWrapReplies})
+		x.Add(&Family{Name: "long-chat-lines", Quick: 150, Thor: 3000, Run: runLongChatLines})
 	}
 }
